@@ -1,6 +1,6 @@
 """C14 — analysis terminates on every workspace shape (DESIGN §4 C14).
 
-theorems : lean/GoldModel/Props/C14.lean — link_acyclic (the repaired linking rule never creates a cycle
+theorems : lean/GoldModel/Props/C14.lean — requests_complete (every request of every kind returns on every workspace), link_acyclic (the repaired linking rule never creates a cycle
            of parent tables, for every parent assignment / uses-graph / request order), lookup_terminates,
            walks_terminate (every graph) / walks_terminate_acyclic, negation witnesses self_cycle, mutual_cycle
 tie 1    : E11ParentLink — self-parent guard, chain check and visited sets read from the source on every run
